@@ -373,16 +373,18 @@ def process(args: Tuple[List[Dict[str, Any]], int, int]) -> Dict[str, Any]:
             want = rec["report"]
             changed = bool(want["new"] or want["deleted"] or want["renamed"] or want["changed"])
             nd, od = build_docs(rec["new"], ids, False, 0), build_docs(rec["old"], {}, False, 0)
-            parts, err = cli_reports(nd, [od, nd], str(tlc.WORK / f"c18cli-{os.getpid()}"), ["BV"] if st["cli_runs"] % 2 else None)
+            ed = build_docs({"svcs": [], "dops": rec["new"]["dops"]}, {}, False, 0)       # a third old file: no services at all
+            parts, err = cli_reports(nd, [od, nd, ed], str(tlc.WORK / f"c18cli-{os.getpid()}"), ["BV"] if st["cli_runs"] % 2 else None)
+            want_says = [changed, False, bool(rec["new"]["svcs"])]
             if err:
                 fail("compare_raises", rec, {"exc": err, "level": "command line"})
-            elif len(parts) != 2:
-                fail("cli_reports", rec, {"reports": len(parts), "expected": 2})
+            elif len(parts) != 3:
+                fail("cli_reports", rec, {"reports": len(parts), "expected": 3})
             else:
                 says = ["Changed diagnostic services for diagnostic layer" in p_ for p_ in parts]
-                if says != [changed, False]:
-                    fail("cli_reports", rec, {"reports_change": says, "expected": [changed, False],
-                                              "files": ["old version", "copy of the new version"]})
+                if says != want_says:
+                    fail("cli_reports", rec, {"reports_change": says, "expected": want_says,
+                                              "files": ["old version", "copy of the new version", "a version without services"]})
         # ---- the overview: old first, then new (same layer names, different content)
         for (db, side, ncp, ex_) in ((db_o, rec["old"], ncp_o, ex_o), (db_n, rec["new"], ncp_n, ex_n)):
             try:
